@@ -141,6 +141,17 @@ impl RollingHash {
     }
 }
 
+#[cfg(a4lg_ffuzzy_verif)]
+impl RollingHash {
+    /// (Verification hook) Creates the object which has the exact same state
+    /// as after processing the specified number of zero bytes.
+    pub(crate) fn verif_with_prefix_zeroes(size: u64) -> Self {
+        let mut hash = RollingHash::new();
+        hash.index = (size % (ROLLING_WINDOW as u64)) as u32;
+        hash
+    }
+}
+
 impl AddAssign<&[u8]> for RollingHash {
     /// Updates the hash value by processing a slice of [`u8`].
     #[inline(always)]
